@@ -394,4 +394,4 @@ def run(ctx):
     import c14
     import c16
     ctx.include("C06.8", "prerequisite shared with C16: the field operations the constants are computed with return canonical values, test their divisors, bound their exponents, and the comparison family realises the right truth functions", c16.rule_divisors, c16.rule_exponents, c16.rule_canonical, c16.rule_comparisons)
-    ctx.include("C06.7", "prerequisite shared with C14: phi insertion is iterated, renaming order and scope pairing, phi identity (a missing phi makes a merged variable look constant)", c14.rule_phi_insertion, c14.rule_phis_and_locals)
+    ctx.include("C06.7", "prerequisite shared with C14: phi insertion is iterated, renaming order and scope pairing, phi identity (a missing phi makes a merged variable look constant)", c14.rule_phi_insertion, c14.rule_phis_and_locals, c14.rule_plumbing)
